@@ -163,12 +163,20 @@ PROPS["C10"] = {
     "title": "every call terminates around Close; Close is final and leak-free",
     "technique": "SSA symbolic execution with controlled threads of the real Store.Close racing Set/Wait, and of the calls after Close; deadlock (non-termination) detection and goroutine-exit check over all schedules within the bound",
     "level_text": "Bounded model checking over schedules of the plain and loading Store: Close racing a writer with more writes than the queue holds (queue size 1 and 64), Close racing Wait, and the sequence of calls after Close; every schedule at synchronisation granularity within the preemption bound is executed; a blocked-forever caller is a deadlock counterexample; after Close the harness asserts misses, no effect, ErrCacheClosed and that every goroutine the constructor started has terminated.",
-    "level_note": _thr_note + "Known findings (not repaired: the repair touches every send site and the Wait protocol): Wait after/overlapping Close and writers overlapping Close can block forever. Hybrid variants (HybridCache.Close is empty; secondary workers never exit) are listed under outside_bound for this check and reported by the C14/C15 programs.",
+    "level_note": _thr_note + "All four cache flavours are also driven through the public theine package API (Close wrappers differ per flavour). The deadlocks and leaks this check found on the pinned tree are repaired (known_findings.json, fixed entries).",
     "assumptions": ["one writer goroutine, one closer; entry pool off"],
-    "outside_bound": ["hybrid cache Close paths (theine package wrappers)", "more than one writer", "preemption bound above 1"],
-    "quick": _c10(0) + [H("ZZ_C10_RaceClose", params={"WQ": 64, "PRE": 1}, reach=["writer-and-closer-returned"], bounds="1 writer x3 vs Close, queue size 64, preemptions 1"),
+    "outside_bound": ["more than one writer", "preemption bound above 1 (RaceClose: 2 in thorough)"],
+    "quick": _c10(0) + [H("ZZ_C10_HybridClose", params={"PRE": 1}, reach=["closed"], bounds="store with secondary cache and one worker"),
+                        H("ZZ_C10_PublicClose", pkg="theine", params={"FLAVOUR": 0}, reach=["closed"], bounds="public API: Cache"),
+                        H("ZZ_C10_PublicClose", pkg="theine", params={"FLAVOUR": 1}, reach=["closed"], bounds="public API: LoadingCache"),
+                        H("ZZ_C10_PublicClose", pkg="theine", params={"FLAVOUR": 2}, reach=["closed"], bounds="public API: HybridCache"),
+                        H("ZZ_C10_PublicClose", pkg="theine", params={"FLAVOUR": 3}, reach=["closed"], bounds="public API: HybridLoadingCache"),
+                        H("ZZ_C10_RaceClose", params={"WQ": 64, "PRE": 1}, reach=["writer-and-closer-returned"], bounds="1 writer x3 vs Close, queue size 64, preemptions 1"),
                         H("ZZ_C10_RaceClose", params={"WQ": 1, "PRE": 1}, reach=["writer-and-closer-returned"], bounds="1 writer x3 vs Close, queue size 1, preemptions 1")],
-    "thorough": _c10(1) + [H("ZZ_C10_RaceClose", params={"WQ": 64, "PRE": 2}, reach=["writer-and-closer-returned"], bounds="preemptions 2")],
+    "thorough": _c10(1) + [H("ZZ_C10_HybridClose", params={"PRE": 2}, reach=["closed"]),
+                           H("ZZ_C10_PublicClose", pkg="theine", params={"FLAVOUR": 0}, reach=["closed"]), H("ZZ_C10_PublicClose", pkg="theine", params={"FLAVOUR": 1}, reach=["closed"]),
+                           H("ZZ_C10_PublicClose", pkg="theine", params={"FLAVOUR": 2}, reach=["closed"]), H("ZZ_C10_PublicClose", pkg="theine", params={"FLAVOUR": 3}, reach=["closed"]),
+                           H("ZZ_C10_RaceClose", params={"WQ": 64, "PRE": 2}, reach=["writer-and-closer-returned"], bounds="preemptions 2")],
 }
 
 PROPS["C01"] = {
